@@ -806,7 +806,7 @@ fn run_libfuzzer(ctx: &Ctx) {
         b.extend_from_slice(s.as_bytes());
         std::fs::write(corpus.join(format!("seed{i}")), b).unwrap();
     }
-    let runs: u64 = std::env::var("VERIF_FUZZ_RUNS").ok().and_then(|s| s.parse().ok()).unwrap_or(1_000_000);
+    let runs: u64 = std::env::var("VERIF_FUZZ_RUNS").ok().and_then(|s| s.parse().ok()).unwrap_or(100_000);
     let out = std::process::Command::new("cargo")
         .args(["+nightly", "fuzz", "run", "--fuzz-dir"])
         .arg(&fuzz_dir)
